@@ -1210,6 +1210,37 @@ pub fn run(w: &mut W) {
         }
         j += 1;
     }
+    // ---- 4f. the same across families that share a template: one huge set / flowset first, then a
+    //      buffer of many tiny sets under the same template (a per-id high-water mark, a capacity
+    //      hint learned from earlier traffic shows here: sets x largest set ever seen)
+    for (big, small) in [("ipfix-varlen-records", "ipfix-varlen-data-sets"), ("ipfix-records", "ipfix-data-sets"), ("v9-records", "v9-data-flowsets"), ("ipfix-varlen-zero-records", "ipfix-varlen-data-sets"), ("ipfix-records", "ipfix-messages-with-data"), ("v9-records", "chained-v9-with-data")] {
+        if w.oneoff(j) {
+            let _ = w.begin_case(crate::worker::ONEOFF + j, small);
+            let k = 256usize;
+            let (c1, _) = run_family(small, k);
+            let maxk = FAMILIES.iter().find(|f| f.0 == big).map(|f| f.1).unwrap_or(1024);
+            let mut sut = Sut::new(1);
+            for b in &family(big, maxk) {
+                let _ = sut.parsers[0].parse_bytes(b);
+            }
+            let mut last = None;
+            for b in &family(small, k) {
+                last = Some(measure(&mut sut, 0, b));
+            }
+            let c2 = last.unwrap();
+            w.rep.count("history_pairs", 1);
+            w.rep.count("calls_measured", 2);
+            let a1 = c1.m.requested as f64;
+            let a2 = c2.m.requested as f64;
+            w.rep.max("history.max_requested_extra", (a2 - a1).max(0.0));
+            w.rep.shape(&format!("history {} after {}", small, big));
+            if a2 > a1 + 262144.0 {
+                let d = div(&format!("cost/history/{}", small), "requested-depends-on-earlier-buffers", format!("{} bytes requested for {} (k={}) after the parser had decoded {} (k={}) under the same template, {} on a fresh parser", a2, small, k, big, maxk, a1));
+                w.rep.violation(format!("C15|cost/history/{}|requested-depends-on-earlier-buffers", small), &d, json!({"family": small, "k": k, "history": format!("{} k={} first", big, maxk)}));
+            }
+        }
+        j += 1;
+    }
     // ---- 4d. announced-length independence: k short data flowsets / sets under a cached template
     //      whose (last) field announces 64 bytes, and the same buffer under a template announcing
     //      the maximum: the values are not there in either case, so what is requested must not
